@@ -231,11 +231,24 @@ class Gen:
             keys = r.sample(["k1", "k2", 3, ("t", 1), "z"], len(lz))
             a, b = typ(), typ()
             for k, x, y in zip(keys, lz, ref):
-                if r.random() < 0.15:   # a collection as dict key
+                u = r.random()
+                if u < 0.15:   # a collection as dict key
                     ck, cref = self.dask.delayed(_inc)(len(a) + 100), len(a) + 101
                     self.ncoll += 1
                     self.deep += 1
                     a[ck], b[cref] = x, y
+                elif u < 0.3:  # a hashable CONTAINER holding a collection as dict key (tuple / namedtuple / nested)
+                    ck, cref = self.dask.delayed(_inc)(len(a) + 200), len(a) + 201
+                    self.ncoll += 1
+                    self.deep += 1
+                    self.ctx.count("container_dict_keys")
+                    shape = r.choice(("tuple", "namedtuple", "nested"))
+                    if shape == "tuple":
+                        a[(ck, 1)], b[(cref, 1)] = x, y
+                    elif shape == "namedtuple":
+                        a[Pt(ck, "p")], b[Pt(cref, "p")] = x, y
+                    else:
+                        a[("n", (ck, 2))], b[("n", (cref, 2))] = x, y
                 else:
                     a[k], b[k] = x, y
             return a, b
